@@ -171,17 +171,15 @@ copy_an_data(int32 infile_id, int32 outfile_id, int32 ref_in, int32 tag_in, int3
          * i.e., the third parameter, is 1 character more than the length of
          * the data label; that is for the null character.  It is not the case
          * when a description is retrieved because the description does not
-         * necessarily end with a null character.
+         * necessarily end with a null character.  The null character is not
+         * part of the label: ann_length characters are written below.
          *
          */
-        if (is_label)
-            ann_length++;
-
-        if ((buf = (char *)malloc((size_t)ann_length * sizeof(int8))) == NULL) {
+        if ((buf = (char *)malloc((size_t)(ann_length + is_label) * sizeof(int8))) == NULL) {
             printf("Failed to get memory for AN %d of <%s>\n", i, path);
             continue;
         }
-        if (ANreadann(ann_id, buf, ann_length) == FAIL) {
+        if (ANreadann(ann_id, buf, ann_length + is_label) == FAIL) {
             printf("Failed to read AN %d of <%s>\n", i, path);
             free(buf);
             continue;
